@@ -34,7 +34,7 @@ func checkC20(ctx *Ctx, r *Report, tier string) {
 	if cf := ctx.ssaFunc("render", "(verifCtlByIndex).Less"); cf != nil {
 		checkLess(ctx, r, cf, "verifCtlByIndex.Less")
 		r.expectControl("Y1", "verifCtlByIndex.Less")
-	} else {
+	} else if !r.controlSkipped() {
 		r.undecided("Y1", "control", 0, "positive control missing")
 	}
 	checkCanonical(ctx, r, ctx.ssaFunc("render", "(*TriangleI).Canonical"), "render.TriangleI.Canonical")
